@@ -12,6 +12,7 @@ import z3
 
 from contracts import common as CC
 from pyvc import rx, solve
+from pyvc.values import Unsupported
 
 
 def obl(name, ok, detail="", witness=None, backend="exhaustive evaluation (cpython)", secs=0.0, kind="vc"):
@@ -27,8 +28,8 @@ def country_invariant(cc, s):
     bad = []
     try:
         cl = CC.classes(s["bban_spec"])
-    except ValueError as ex:
-        return [str(ex)]
+    except (ValueError, Unsupported) as ex:
+        return [f"the structure string does not describe a fixed-width BBAN: {ex}"]
     L = s.get("bban_length")
     if len(cl) != L:
         bad.append(f"structure {s['bban_spec']!r} describes {len(cl)} characters, bban_length is {L}")
@@ -198,7 +199,7 @@ def main(seed, tier):
         obls.append(obl(f"{cc}: well_formed(country entry)", not bad, "; ".join(bad), {"country": cc, "violations": bad}))
         try:
             obls += regex_vs_classes(cc, table[cc])
-        except (ValueError, NotImplementedError) as ex:
+        except (ValueError, NotImplementedError, Unsupported) as ex:
             obls.append(dict(name=f"{cc}: live regex <=> structure classes", kind="vc", backend="z3", secs=0,
                              status="undecided", witness=None, detail=str(ex)))
     per_country = {}
